@@ -2,6 +2,9 @@
 """Regenerates /verif/MANIFEST.json from the table below (one row per claimed property)."""
 import json, subprocess
 CHECKS = {
+ "C04": ("A", "bounded-exhaustive enumeration (all base phones [+ all base+1-diacritic bundles] x all 26 features / 5 place nodes / 26x26 alpha pairs) against a bit-level reference model",
+         "The space the property names is finite: every segment of the IPA table (thorough: plus every distinct bundle the word parser accepts for base+one diacritic, ~6 k) x every single-feature / single-node matrix as output and as input probe x every ordered feature pair for alpha transfer (plain and inverted). Each case runs the real parser and Rule::apply and is compared structurally with a 60-line bit model; all cases are enumerated, none sampled.",
+         "Trusts harness/src/model.rs (bit layout from the rustdoc; set/match semantics from doc.md). One-segment words only: interaction with neighbours is C03's business.", "DESIGN.md §5 C04"),
  # pid: (engine, technique, level text, level note, design ref)
  "C18": ("A", "bounded-exhaustive enumeration of the whole accessor input space + explicit-state closure of reachable Place encodings, against a reference bit model",
          "Every Some(x) place (2^16) and None x 4 sub-nodes x all in-range values, all 26 features x 2 polarities, all root/manner/laryngeal bytes are enumerated and each call is compared with an independent model of the documented bit layout; the encodings reachable from None through the setters are closed under BFS and checked for well-formedness. The space is finite and fully covered, which is the strongest statement this property admits.",
